@@ -52,7 +52,7 @@ def check(prog, rep, tier):
     rep.rule('R16.c', 'faithful send: between the request JSON and protocol.send_update the attribute dictionary is '
                       'only re-keyed, given the default LOCAL_PREF on iBGP and the recombined extended '
                       'communities; NLRI and withdraw pass unchanged; success is reported only from the send result')
-    rep.assumptions += ['Flask routing/decorator semantics and Flask-HTTPAuth get_password semantics (trusted base)',
+    rep.assumptions += ['Flask routing/decorator semantics and Flask-HTTPAuth get_password semantics (trusted base); Flask-HTTPAuth does not authenticate OPTIONS requests',
                         'TOCTOU between the establishment gate and the send is not decided']
     m = prog.module(V1)
     rs = routes(prog)
@@ -65,6 +65,20 @@ def check(prog, rep, tier):
             probs.append('blueprint.route is not the outermost decorator')
         if len(decs) < 2 or decs[1] != 'auth.login_required':
             probs.append('auth.login_required is not directly inside blueprint.route (decorators: %s)' % decs)
+        # Flask-HTTPAuth lets OPTIONS requests through without credentials (CORS pre-flight): harmless while
+        # Flask answers OPTIONS itself, a bypass once the route hands OPTIONS to the view
+        for d in f.decorators:
+            if isinstance(d, ast.Call) and src_of(d.func).endswith('.route'):
+                for k in d.keywords:
+                    if k.arg == 'methods':
+                        ms = prog.try_fold(k.value, f.module, None)
+                        if ms is None:
+                            probs.append('methods=%s is not a constant list' % src_of(k.value))
+                        elif any(str(x).upper() == 'OPTIONS' for x in ms):
+                            probs.append('the route hands OPTIONS requests to the view, and login_required does not '
+                                         'authenticate OPTIONS: the view runs without credentials')
+                    if k.arg == 'provide_automatic_options':
+                        probs.append('provide_automatic_options is overridden')
         if probs:
             rep.bad('R16.a', key, file=f.file, line=f.node.lineno, func=f.qualname, found='; '.join(probs),
                     expected='@blueprint.route, @auth.login_required, ...', key=key)
